@@ -4,22 +4,7 @@ package shard
 
 import (
 	"github.com/nspcc-dev/neofs-node/pkg/local_object_storage/shard/mode"
-	"github.com/nspcc-dev/neofs-node/pkg/local_object_storage/writecache"
 )
-
-// VerifRemoveGarbage runs one pass of the GC remover synchronously
-// (verification harness only).
-func (s *Shard) VerifRemoveGarbage() {
-	s.removeGarbage()
-}
-
-// VerifWriteCache returns the shard's write-cache (nil if disabled).
-func (s *Shard) VerifWriteCache() writecache.Cache {
-	if !s.hasWriteCache() {
-		return nil
-	}
-	return s.writeCache
-}
 
 // VerifMetabaseMode returns the mode the metabase component is in and
 // whether its database handle is usable.
